@@ -132,6 +132,11 @@ def gen_case(seed):
             st['writers'] = ['comp', 'outer'] if k % 2 == 0 else ['comp']
         else:  # nested: inner writes all, outer overrides the odd ones
             st['writers'] = ['inner', 'outer'] if k % 2 == 1 else ['inner']
+    # how the scaled twin is told about ref/ref0/res_ref of each state: add_output keywords, or
+    # set_output_solver_options called on the component / the group holding it / the group with the solver / the root
+    for st in states:
+        st['route'] = rng.choice(['add_output', 'add_output', 'options@comp', 'options@holder', 'options@solver',
+                                  'options@root'])
     return dict(seed=seed, kind='guess', level=level, solver=solver, states=states,
                 reruns=rng.choice([0, 1, 1]))
 
@@ -204,7 +209,7 @@ def build(case, scaled):
                 self.add_input('a', np.ones(shp(st)), **kw)
             else:
                 self.add_input('a', 1.0, **kw)
-            okw = kwarr(st, st['x_scal']) if scaled else {}
+            okw = kwarr(st, st['x_scal']) if (scaled and st['route'] == 'add_output') else {}
             if st['shape']:
                 self.add_output('x', np.ones(shp(st)), **okw)
             else:
@@ -278,9 +283,21 @@ def build(case, scaled):
     paths = {}
     for st in states:
         cls = QuadG if 'comp' in st['writers'] else Quad
-        holder.add_subsystem(st['name'], cls(st=st))
+        comp = holder.add_subsystem(st['name'], cls(st=st))
         paths[st['name']] = prefix + st['name']
         model.connect('iv.a_' + st['name'], prefix + st['name'] + '.a')
+        if scaled and st['route'] != 'add_output' and st['x_scal']:
+            kw = kwarr(st, st['x_scal'])
+            where = st['route'].split('@')[1]
+            if where == 'comp':
+                comp.set_output_solver_options('x', **kw)
+            elif where == 'holder':
+                holder.set_output_solver_options(st['name'] + '.x', **kw)
+            elif where == 'solver':
+                rel = 'h.' if level == 'nested' else ''
+                solver_sys.set_output_solver_options(rel + st['name'] + '.x', **kw)
+            else:
+                model.set_output_solver_options(prefix + st['name'] + '.x', **kw)
 
     sv = case['solver']
     if sv == 'broyden':
